@@ -7,6 +7,15 @@ CHECKS = {
  "C01": ("exploration", "reference-model monitor (maximal-live-candidate versioned map) over resolver calls on enumerated DAG shapes x placements and over recorded HTTP histories",
          "Every DAG shape with <=5 nodes (all ordered merge-parent lists) x every value/tombstone/nothing placement x every queried node is executed against the real resolver (exhaustive slice), larger DAGs and real put/delete/commit/branch/merge HTTP histories are sampled; the oracle is order-free so entry order and parent order are covered by shuffling/permutation.",
          "Trusts the 40-line reference model in harness/internal/dvc/dag.go; DAGs >10 nodes and >4 merge parents are not explored; Badger itself is trusted.", "3/C01"),
+ "C18": ("exploration", "explicit voxel-set and tuple-order oracles inside a probe process (plain + race) and an ROI reference model over HTTP histories",
+         "All 262,144 ordered pairs of 512 boundary coordinates + random pairs for key order and round trips; packed block index over its documented range; 6,000 non-overlapping run sets per flavour through Normalize, Partition, Split, FitToBounds, Add and binary (de)serialisation against explicit voxel sets; ROI POST/GET/DELETE, ptquery and mask against span sets incl. negative coordinates.",
+         "Set preservation asserted for non-overlapping runs only, as the statement says.", "3/C18"),
+ "C19": ("exploration", "differential monitor: every read endpoint of the copy vs the source at every version (+ versioned-map model for flattened copies)",
+         "Histories on keyvalue, unversioned keyvalue, uint8blk, annotation and roi instances over branched DAGs; full copies, flattened copies at every version, copies onto a second Badger store; the source snapshot is re-checked after all copies.",
+         "datastore.CopyInstance is called synchronously in-process (what the RPC 'repo <uuid> copy' runs); info endpoints are not compared.", "3/C19"),
+ "C20": ("exploration", "liveness / recovered-panic / snapshot monitors over structure-aware hostile requests in child processes, plus a fixed list of absurd-size requests",
+         "Valid payloads of every ingestion and mutation endpoint are mutated (truncation, bit flips, 32/64-bit length inflation, zeroing, over-long, JSON damage, random bytes) and URLs made hostile; after every request a liveness probe, after every batch of 20 settle + full snapshot of the target version (rejected requests must change nothing, accepted ones only their sync group); recovered panics on any request, process death and unresponsiveness are violations; thorough adds race (checkptr) and asan builds.",
+         "A mutated payload answered 2xx is not judged malformed; requests outliving the watchdog are inconclusive; instance-wide counters are excluded from the untouched-data comparison.", "3/C20"),
  "C02": ("exploration", "self-calibrating gate differential (open vs committed version, same request) + store write auditor + read-stability snapshots",
          "Every catalogued well-formed mutation and every endpoint keyword found in the data type packages is sent with POST/PUT/DELETE to a fresh open version and to a committed version holding identical data, in default, admin-token, full-write, read-only and after-read-only-toggle modes; the committed version must read back unchanged, no store write or log append may carry its version id, real mutations must be refused, child creation must stay allowed; mixed histories re-read every committed version against its commit-time snapshot after later operations and a restart.",
          "Instance-wide settings (info, extents, sync, tags, next-label counter) are excluded as unversioned; endpoints needing external services are not driven; payloads for scanned keywords without a catalogue entry are generic.", "3/C02"),
@@ -16,12 +25,21 @@ CHECKS = {
  "C04": ("fault_enumeration", "crash injection at every store write / log append through wrapping engines + reference-snapshot comparison after restart; byte-level tearing of append-only logs against a reference framing parser",
          "A deterministic mixed workload is censused (every write numbered, reference snapshot after every operation); the server is then killed before write N for every N (sampled stride in quick, all in thorough, plus 'after' at operation boundaries and a second crash at every write of the recovery start-up for a sample); after restart the repo metadata must satisfy the C07 invariants, everything the interrupted operation cannot touch must equal the acknowledged prefix, atomic repo-level/single-key operations must be all-or-nothing, and the server must be usable. Log files are truncated at every byte offset of their tail records and read through the real filelog store.",
          "Process death (SIGKILL), not power loss; crash granularity is the store-call boundary (Badger's own commit is trusted); 'cannot touch' = other instances/sync groups and other versions than the open leaf the request addressed.", "3/C04"),
+ "C05": ("exploration", "internal-consistency monitor (range / listing results vs the implementation's own point reads) + versioned-map reference model over recorded histories",
+         "Put/delete histories over branched DAGs (incl. merges and a directed conflict scenario) with a prefix-related key universe; every interval class through GetRange, KeysInRange, SendKeysInRange, ProcessRange, DeleteRange and the HTTP keys/keyrange/keyrangevalues/keyvalues endpoints in JSON, tar and protobuf is compared key by key with GET key at every version; DeleteRange is followed by a full key x version matrix check.",
+         "For an interval containing a key in unresolved merge conflict a request error or a malformed stream is accepted (as documented); driver-side tar/protobuf decoders are hand written.", "3/C05"),
  "C06": ("exploration", "round-trip / injectivity / order oracles over storage key functions (probe, plain + checkptr) and before/after snapshots + store-dump + write-log audit of untouched instances in live create/write/delete/re-create histories",
          "Key tuples over boundary ids and every data type's tkey constructors are checked for round trip, injectivity, byte order == (instance, tkey, version) order, contiguity and foreign keys in ranges; live histories delete and re-create instances (incl. ids near 2^32) and compare every other instance's reads and raw stored entries after every operation.",
          "Instance deletion is reached through the RPC-equivalent datastore call (no HTTP route exists); sorting with bytes.Compare stands for Badger's order.", "3/C06"),
  "C08": ("exploration", "reference-model monitor (brute-force voxel/mapping model, independent wire decoders) over recorded proofreading histories; conservation checked separately",
          "Sequences of ingest (raw, blocks, offline indices+mappings), mutate, merge, cleave, split-supervoxel (8 shapes), renumber, split and illegal requests interleaved with commit/newversion/branch; after every settled mutation and at every version at the end ~48 endpoint views are recomputed by scanning the model's voxels; voxel conservation and body/supervoxel partition are computed from server responses only.",
          "Volumes of 2-3 blocks per axis of 32^3 incl. negative origins; skipped formats are listed in the evidence; settle additionally waits until no goroutine is inside labelmap/downres code.", "3/C08"),
+ "C09": ("exploration", "naive []uint64 reference oracles inside a probe process; plain, race (checkptr) and asan builds",
+         "Blocks of all sizes (8i,8j,8k), i,j,k in {2,3,4,8}, with per-sub-block label counts hitting every index bit width incl. 512 labels; MakeBlock/MakeLabelVolume and Marshal/Unmarshal round trips and every direct view (Value at every voxel, GetPointLabels, CalcNumLabels, WriteRLEs, WriteBinaryBlocks, SubvolumeToBlock at every block offset) compared with the same view on the array.",
+         "Only legal inputs (hostile encodings belong to C20); sanitizer reports are process-fatal and turned into violations with the in-flight case.", "3/C09"),
+ "C10": ("exploration", "naive voxel-wise reference operations + path-vs-path differential inside a probe process; plain, race and asan builds",
+         "Merge, replace (chains, swaps, label 0), split by RLE (all run-set kinds x split variants incl. the unexported fast path via linkname), down-sampling over all 2^8 octant patterns x {solid, mixed}; results decoded voxel for voxel, reported counts compared with true counts, source block unchanged, alternative paths compared with each other.",
+         "splitFast is reached through go:linkname (no repo change).", "3/C10"),
  "C11": ("exploration", "linearizability checking (porcupine, per-key register model) of recorded concurrent histories + conservation oracles for commuting operations after settle + race detector as evidence",
          "2-8 requests released by one barrier under four delay-injection profiles at store-call boundaries: keyvalue POST/DELETE/GET (porcupine), annotation element edits in one block/tag, labelmap merges into one target, neuronjson posts on one/several ids, newversion/branch on one parent; every acknowledged element/supervoxel/field must be present exactly once and at most one child per branch.",
          "Only interleavings produced by barrier + delays + 16 cores are observed; race reports are listed, verdicts come from the history oracles.", "3/C11"),
@@ -34,6 +52,9 @@ CHECKS = {
  "C14": ("exploration", "level-to-level recomputation monitor of the documented 2x2x2 vote from the server's own level-n data and from the model",
          "MaxDownresLevel 1-3, ingests, mutating writes, single-octant rewrites in child versions, all-zero blocks, negative block coordinates, splits; after settle every voxel of level n+1 (raw and blocks reads) must equal the vote over level n; an in-process watcher samples whether the instance reports idle while a level is stale.",
          "Vote rule as documented in the code (most frequent non-zero, ties to the smaller label, all zero -> zero).", "3/C14"),
+ "C15": ("exploration", "round-trip / corruption / hostile-input oracles inside a probe process with independent decoders; plain, race and asan builds",
+         "About 160 payloads x {none, snappy, lz4, gzip levels} x {no checksum, CRC32} x uncompress on/off; every single-bit flip, byte substitution and truncation of small values (sampled for large) must give an error or the identical bytes when CRC32 covers the damage; 37k arbitrary byte strings (all format bytes, size prefixes, JPEG values) must not crash (input on disk before each call, memory guarded).",
+         "The format byte is outside the CRC by design (counted, not judged); inputs declaring >64 MiB are skipped except a dedicated class.", "3/C15"),
  "C16": ("exploration", "differential monitor (in-memory head vs store-backed committed parent vs restarted process) + metamorphic update rules",
          "Scripted minimal scenarios and random POST/DELETE/schema sequences; after every step a commit+newversion pair holding identical data is read through 32 endpoint forms on both paths and across clean/abrupt/SIGKILL restarts; the three update rules of the statement are checked on every update.",
          "Endpoints that promise no order are compared as multisets; fieldtimes only across restarts (the store path does not serve it); deliberately no re-implementation of updateJSON.", "3/C16"),
